@@ -672,6 +672,34 @@ def build_tools(tree, wd):
     return T
 
 
+def build_part_harness(tree, wd):
+    """extract the partition statements of ncmpidiff.c main() and compile harness/c20_part.c around them"""
+    src = open(os.path.join(tree, 'src/utils/ncmpidiff/ncmpidiff.c')).read()
+    a = src.find('/* calculate read amount of this process in start[] and shape[] */')
+    b = src.find('/* if none of shape[*] >= nprocs', a)
+    if a < 0 or b < 0:
+        raise BuildFailed('ncmpidiff.c: the partition code of main() was not found between its two comments')
+    body = src[a:b]
+    if body.count('{') != body.count('}') or 'MPI_' in body.replace('MPI_Offset', ''):
+        raise BuildFailed('ncmpidiff.c: the partition code is no longer a self-contained statement:\n' + body[:600])
+    with open(os.path.join(wd, 'c20_part_body.inc'), 'w') as f:
+        f.write(body)
+    exe = os.path.join(wd, 'c20_part')
+    p = subprocess.run(['gcc', '-g', '-O1', '-w', '-I' + wd, os.path.join(VERIF, 'harness/c20_part.c'), '-o', exe],
+                       stdout=subprocess.PIPE, stderr=subprocess.STDOUT, text=True)
+    if p.returncode != 0:
+        raise BuildFailed('harness c20_part.c does not compile around the extracted partition code:\n' + p.stdout[-1500:])
+    return exe
+
+
+def diff_lines_by_var(out):
+    """number of DIFF lines per variable name in the output of ncmpidiff"""
+    res = {}
+    for m in re.finditer(r'DIFF[^\n]*?variable "([^"]+)"', out):
+        res[m.group(1)] = res.get(m.group(1), 0) + 1
+    return res
+
+
 def run(cmd, timeout=120, cwd=None, stdin=None):
     e = dict(os.environ)
     e.setdefault('OMPI_MCA_btl_vader_single_copy_mechanism', 'none')
@@ -1131,6 +1159,7 @@ def _run(V, rng, tier, seed, tree, wd):
         try:
             T = build_tools(tree, wd)
             apirun = apicmp.build_apirun(tree, wd)
+            T['part'] = build_part_harness(tree, wd)
             break
         except BuildFailed as ex:
             if attempt == 1 and not os.path.exists(os.path.join(tree, 'src/utils/ncvalidator/ncvalidator.c')):
@@ -1219,6 +1248,38 @@ def _run(V, rng, tier, seed, tree, wd):
     for nm, L in [('w', W), ('w_rec', W_rec), ('w_byte', W_byte), ('w_batt', W_batt), ('w_noatt', W_noatt), ('w_ext', W_ext), ('w_empty', W_empty)]:
         files[nm] = dict(path=os.path.join(wd, nm + '.nc'), L=L, kw={})
         files[nm]['steps'] = emit_script(prog, files[nm]['path'], L)
+    # files for ncmpidiff on 2 and 3 ranks: one-dimensional variables of every length 1..13 (fixed: f<L>(e<L>); record
+    # variables g<L>(t, e<L>) with one record: split along the inner dimension), every index edited in turn; and record
+    # variables h(t) with L records (split along the record dimension)
+    MAXL = 13
+    def mr_base():
+        return dict(fmt=1, dims=[('t', 0)] + [('e%d' % n, n) for n in range(1, MAXL + 1)], gatts=[('g', 'int', [1])], numrecs=1,
+                    vars=[dict(name='f%d' % n, xt='int', dims=['e%d' % n], atts=[('a', 'int', [n])], data=[[10 + i for i in range(n)]]) for n in range(1, MAXL + 1)] +
+                         [dict(name='g%d' % n, xt='short', dims=['t', 'e%d' % n], atts=[('a', 'int', [n])], data=[[20 + i for i in range(n)]]) for n in range(1, MAXL + 1)])
+    mr_pairs = []        # (a, b, {var: edited multi-index})
+    Lb = mr_base()
+    files['mr_b'] = dict(path=os.path.join(wd, 'mr_b.nc'), L=Lb, kw={})
+    for k in range(MAXL):
+        M = mr_base()
+        ed = {}
+        for v in M['vars']:
+            n = len(v['data'][0])
+            if k < n:
+                v['data'][0][k] += 1
+                ed[v['name']] = ([k] if v['name'][0] == 'f' else [0, k])
+        files['mr_b_%d' % k] = dict(path=os.path.join(wd, 'mr_b_%d.nc' % k), L=M, kw={})
+        mr_pairs.append(('mr_b', 'mr_b_%d' % k, ed))
+    for n in ((2, 3, 5, 9, 11, 13) if not thorough else range(1, MAXL + 1)):
+        def rl(edit=None):
+            return dict(fmt=2, dims=[('t', 0)], gatts=[('g', 'int', [1])], numrecs=n,
+                        vars=[dict(name='h', xt='int', dims=['t'], atts=[('a', 'int', [n])], data=[[30 + i + (1 if i == edit else 0)] for i in range(n)])])
+        files['mr_r%d' % n] = dict(path=os.path.join(wd, 'mr_r%d.nc' % n), L=rl(), kw={})
+        for k in range(n):
+            files['mr_r%d_%d' % (n, k)] = dict(path=os.path.join(wd, 'mr_r%d_%d.nc' % (n, k)), L=rl(k), kw={})
+            mr_pairs.append(('mr_r%d' % n, 'mr_r%d_%d' % (n, k), {'h': [k]}))
+    for k_, f_ in files.items():
+        if k_.startswith('mr_'):
+            f_['steps'] = emit_script(prog, f_['path'], f_['L'])
     if thorough:
         # a header larger than ncvalidator's 1 MiB read window (the model reads flat): 300 text attributes of 4001 bytes
         BIG = dict(fmt=1, dims=[('x', 2)], gatts=[('big%03d' % i, 'char', [97 + (i + j) % 26 for j in range(4001)]) for i in range(300)],
@@ -1249,8 +1310,10 @@ def _run(V, rng, tier, seed, tree, wd):
         r['off'] = run([T['ncoffsets'], f['path']])
         r['dump'] = run([T['ncmpidump'], '-p', '9,17', f['path']])
         return k, r
-    tool_res = dict(pmap(per_file, list(files)))
+    tool_res = dict(pmap(per_file, [k for k in files if not k.startswith('mr_')]))
     for k, f in files.items():
+        if k.startswith('mr_'):
+            continue
         b, h = f['bytes'], f['h']
         evals[0] += 4
         # the harness itself: the file holds what the logical description says
@@ -1317,6 +1380,32 @@ def _run(V, rng, tier, seed, tree, wd):
     for a, b, tag, equal in pairs:
         lean.ask(('D', a, b), 'D %s %s' % (hexof(files[a]['bytes']), hexof(files[b]['bytes'])))
     log('[S4] %d ordered pairs through cdfdiff/ncmpidiff (%.1fs)' % (len(pairs), V.t.s()))
+    # ---- stream part: the per-rank partition of ncmpidiff
+    # (1) the partition statements of main(), executed for every length 0..40 (and some shapes) on 1..6 processes
+    part_lines = ['P %d %d' % (np_, n) for np_ in range(1, 7) for n in range(0, 41)]
+    for _ in range(60 if not thorough else 300):
+        part_lines.append('P %d %s' % (rng.range(1, 6), ' '.join(str(rng.choice([0, 1, 2, 3, 4, 5, 6, 7, 9, 13, 40])) for _ in range(rng.range(1, 4)))))
+    pc = subprocess.run([T['part']], input='\n'.join(part_lines) + '\n', stdout=subprocess.PIPE, stderr=subprocess.PIPE, text=True)
+    part_c = pc.stdout.split('\n')
+    for i, l in enumerate(part_lines):
+        lean.ask(('P', i), l)
+    # (2) the real tool on 2 and 3 ranks: a single value edited at every index of variables of every length
+    def per_mr(x):
+        a, b, ed, np_ = x
+        rc, so, se = mpirun(np_, [T['ncmpidiff'], files[a]['path'], files[b]['path']], timeout=120)
+        return rc, so
+    mr_jobs = [(a, b, ed, np_) for (a, b, ed) in mr_pairs for np_ in (2, 3)]
+    mr_res = pmap(per_mr, mr_jobs, workers=8)
+    mr_shapes = {}
+    for (a, b, ed, np_) in mr_jobs:
+        for vn in ed:
+            v = [x for x in files[a]['L']['vars'] if x['name'] == vn][0]
+            dm = dict(files[a]['L']['dims'])
+            shape = [(files[a]['L']['numrecs'] if dm[d] == 0 else dm[d]) for d in v['dims']]
+            mr_shapes[(np_, tuple(shape))] = None
+    for key in mr_shapes:
+        lean.ask(('PS',) + key, 'P %d %s' % (key[0], ' '.join(str(x) for x in key[1])))
+    log('[S4] stream part: %d partition requests, ncmpidiff on 2 and 3 ranks for %d single-value edits (%.1fs)' % (len(part_lines), len(mr_jobs), V.t.s()))
     # ---- dump | gen round trip (files without attributes of the extended types; see the known finding)
     def has_ext_att(L):
         return any(a[1] in EXT for a in L['gatts']) or any(a[1] in EXT for v in L['vars'] for a in v['atts'])
@@ -1587,6 +1676,57 @@ def _run(V, rng, tier, seed, tree, wd):
         a = ans.get(('D', k, 'rt'))
         if a is not None and a.split()[1:] != ['0,0', '0,0', '1']:
             ties.append(('roundtrip', 'regenerated file of %s: model says %s, tools say equal' % (k, a)))
+    # partition: extracted C statements vs Tools.rankBox; property: the blocks tile the dimension
+    def boxes(ansline):
+        return [[tuple(int(x) for x in p.split(',')) for p in g.split()] for g in ansline[2:].split(' | ')] if ansline.strip() != 'P' else [[]]
+    for i, l in enumerate(part_lines):
+        evals[0] += 1
+        got = part_c[i].strip() if i < len(part_c) else '<missing>'
+        want = ans[('P', i)].strip()
+        t = l.split()
+        np_, shape = int(t[1]), [int(x) for x in t[2:]]
+        count('partition %d ranks' % np_)
+        distinct.add(('part', l))
+        if got != want:
+            ties.append(('partition', 'request "%s": ncmpidiff.c gives "%s", Tools.rankBox "%s"' % (l, got, want)))
+        try:
+            bx = boxes(got)
+            # every multi-index of the shape must be in the box of some rank (checked along the partitioned dimension)
+            for dpos, n in enumerate(shape):
+                cover = [0] * n
+                for r in range(np_):
+                    st, ct = bx[r][dpos]
+                    for x in range(st, st + ct):
+                        if 0 <= x < n:
+                            cover[x] += 1
+                if any(cv == 0 for cv in cover):
+                    fail('ncmpidiff-partition-leaves-slices-uncompared', 'the start[]/shape[] blocks ncmpidiff.c computes for shape %s on %d processes leave index %d of dimension %d to no rank'
+                         % (shape, np_, cover.index(0), dpos), dict(request=l, blocks=got))
+                    break
+        except Exception as ex:
+            ties.append(('partition', 'request "%s": unreadable answer "%s" (%r)' % (l, got, ex)))
+    # the real tool on 2 and 3 ranks
+    for (a, b, ed, np_), (rc, so) in zip(mr_jobs, mr_res):
+        evals[0] += 1
+        count('ncmpidiff %d ranks, single-value edit' % np_)
+        distinct.add(('mr', a, b, np_))
+        got = diff_lines_by_var(so)
+        replay = dict(first=files[a]['L'], second=files[b]['L'], nprocs=np_, edited=ed, ncmpidiff_exit=rc, ncmpidiff_output=so[-800:],
+                      how='write both files with harness/apirun.c (emit_script in checks/c20.py), then mpiexec -n %d ncmpidiff first second' % np_)
+        for vn, idx in ed.items():
+            v = [x for x in files[a]['L']['vars'] if x['name'] == vn][0]
+            dm = dict(files[a]['L']['dims'])
+            shape = [(files[a]['L']['numrecs'] if dm[d] == 0 else dm[d]) for d in v['dims']]
+            bx = boxes(ans[('PS', np_, tuple(shape))].strip())
+            mult = sum(1 for r in range(np_) if all(st <= i < st + ct for i, (st, ct) in zip(idx, bx[r])))
+            if got.get(vn, 0) == 0:
+                fail('ncmpidiff-multirank-misses-edit', 'ncmpidiff on %d ranks does not report variable %s (shape %s) although element %s differs' % (np_, vn, shape, idx), replay)
+            if got.get(vn, 0) != mult:
+                ties.append(('multirank', 'ncmpidiff on %d ranks, variable %s shape %s element %s: %d DIFF lines, model (ranks whose box holds the element) %d'
+                             % (np_, vn, shape, idx, got.get(vn, 0), mult), replay))
+        extra = [vn for vn in got if vn not in ed]
+        if extra:
+            fail('diff-false-alarm:ncmpidiff:multirank', 'ncmpidiff on %d ranks reports variables %s that do not differ' % (np_, extra), replay)
     # size-limit headers: validator vs model vs ncmpi_open
     for i, (tag, hb) in enumerate(vl):
         rc, classes, txt = vl_val[i]
